@@ -282,8 +282,29 @@ def command_line_leg(rep, wd, tier):
                                   {"options": opts, "files": diff[:6], "run": i})
                     break
             rep.nontriv("%s|Rerun|docs base urls %d" % (b, si))
+    # the same setting given in two spellings (kebab-case in the file, kebab-case on the command line, snake_case on the command
+    # line): whatever the tool makes of it, it makes the same of it in every process
+    cf = os.path.join(wd, "spell.toml")
+    open(cf, "w").write("[kotlin]\nlib-name = \"fromfile\"\ndomain = \"dev.verif\"\n[nanobind]\nlib-name = \"fromfile\"\n")
+    for b in ("kotlin", "nanobind"):
+        for extra in (["--config", "%s.lib-name=fromcli" % b], ["--config", "%s.lib-name=fromcli" % b, "--config", "%s.lib_name=snakecli" % b]):
+            ref = None
+            for i in range(8 if tier == "quick" else 24):
+                d = os.path.join(wd, "out_spell_%s" % b)
+                shutil.rmtree(d, ignore_errors=True)
+                r = lib.sh([exe, b, d, "--entry", p, "--config-file", cf] + extra, timeout=120)
+                tree = (r.returncode, observe.read_tree(d) if r.returncode == 0 else None)
+                n += 1
+                if ref is None:
+                    ref = tree
+                elif tree != ref:
+                    rep.violation({"action": "Rerun", "backend": b, "what": "output changed", "detail": "one setting in two spellings (file and command line)"},
+                                  {"options": extra, "config_file": open(cf).read(), "run": i,
+                                   "files_first": sorted((ref[1] or {}).keys())[:6], "files_now": sorted((tree[1] or {}).keys())[:6]})
+                    break
+            rep.nontriv("%s|Rerun|spellings %d" % (b, len(extra)))
     rep.extra["command_line_runs"] = n
-    return 2
+    return 3
 
 
 def run(rep, tier):
